@@ -34,7 +34,8 @@ def h_pair(ctx, cfg):
         names = all_names([o, i])
         ex = Exec(o, [(_site(uva, uvk), i)])
     try:
-        R = S.embed(so, si, use_varargs=uva, use_varkwargs=uvk)
+        with sym.concrete():
+            R = S.embed(so, si, use_varargs=uva, use_varkwargs=uvk)
     except S.IncompatibleSignatures:
         ctx.count('raised')
         if set(o.named) & set(i.named):
